@@ -77,6 +77,7 @@ def check(ctx) -> None:
     r55(ctx)
     r56(ctx)
     r57(ctx)
+    r58(ctx)
 
 
 # ----------------------------------------------------------------------
@@ -579,3 +580,15 @@ def r57(ctx) -> None:
                     f, s, f'{who}: _session value comes from _login',
                     f'_session is assigned {txt(v)}, not the result of the '
                     f'login chain')
+
+
+def r58(ctx) -> None:
+    from . import c01
+    before = len(ctx.rules)
+    c01.r15(ctx)
+    r = ctx.rules[before]
+    r.id = 'R5.8'
+    r.title = ('_selected is only cleared (SELECT/CLOSE) or advanced by '
+               'fork (= R1.5): no handler restores an old selection')
+    for i in r.instances:
+        i.rule = 'R5.8'
